@@ -540,7 +540,26 @@ class _GroupBy:
     def __iter__(self):
         for k in self.keys:
             yield k, self.f._take([i for i, t in enumerate(self.f._i._l) if t == k])
+    def _pick(self, last):
+        """groupby.first() / .last(): per group and column the first / last cell that is not NaN (NaN if there is none)"""
+        from vf.symx import ops as X
+        rows = []
+        for k, sub in self:
+            cells = {}
+            for c in sub._cols:
+                vs = list(sub._c[c]); vs = vs[::-1] if last else vs
+                r = float('nan')
+                for v in vs[::-1]: r = X.If(_isnan(v), r, v)          # folded from the far end, so the nearest non-NaN cell wins
+                cells[c] = r
+            rows.append((k, cells))
+        f = DataFrame(); f._cols = Columns(self.f._cols); f._c = {c: [cells[c] for k, cells in rows] for c in f._cols}; f._i = Index([k for k, cells in rows], self.f._i.name)
+        return f
+    def first(self): return self._pick(False)
+    def last(self): return self._pick(True)
     def apply(self, func, **kw):
+        if isinstance(func, str):                         # pandas: a string names a groupby method
+            if func not in ('first', 'last'): raise Unsupported('minipd: groupby.apply(%r)' % func)
+            return getattr(self, func)()
         rows = []; 
         for k, sub in self:
             r = func(sub)
